@@ -160,6 +160,20 @@ pub mod rwa_c {
     }
 }
 
+/// A forwarder contract: when it calls the token, the forwarder's own address is authorised by the
+/// host's invoker rule (no authorisation entry, no mock), so a REGISTERED CONTRACT can be the
+/// from / owner / spender / operator of a successful call.  (mock_auths on a contract address would
+/// replace the contract.)
+pub mod fwd_c {
+    use soroban_sdk::{contract, contractimpl, Address, Env, Symbol, Val, Vec};
+    #[contract]
+    pub struct Fwd;
+    #[contractimpl]
+    impl Fwd {
+        pub fn call(e: Env, target: Address, f: Symbol, args: Vec<Val>) -> Val { e.invoke_contract::<Val>(&target, &f, args) }
+    }
+}
+
 // ---------------------------------------------------------------------------------------------
 #[derive(Clone, Copy, PartialEq, Eq, Debug)]
 pub enum Flav { Base, Allow, Block, Votes, Vault, Rwa }
@@ -259,6 +273,8 @@ pub struct Mirror {
     pub allow: Vec<Vec<(i128, u32, i64)>>, // [owner][spender] = (amount, live_until, storage live_until or -1)
     pub abal: Vec<i128>,                   // vault: asset balances
     pub frozen: Vec<i128>,                 // rwa
+    pub listed: Vec<bool>,                 // allow / block list flag per address
+    pub afrozen: Vec<bool>,                // rwa: address frozen
 }
 
 pub struct World {
@@ -267,7 +283,8 @@ pub struct World {
     pub tok: Address,
     pub asset: Option<Address>,
     pub idv: Option<Address>,
-    pub addrs: Vec<Address>, // universe: users 0..nu-1, then the token contract
+    pub addrs: Vec<Address>, // universe: users 0..nu-1, the token contract, an account-type address, (vault: the asset contract), the forwarder contract
+    pub fwd: usize,          // index of the forwarder contract (last of the universe)
     pub sc: Vec<xdr::ScAddress>,
     pub nu: usize,
     pub start: u32,
@@ -350,15 +367,20 @@ impl World {
         let acct = Address::try_from_val(&e, &xdr::ScVal::Address(acct_sc)).unwrap();
         addrs.push(acct);
         if let Some(a) = &asset { addrs.push(a.clone()); }   // vault: the asset token's address can hold shares too
+        // another registered contract that can really authorise (it is the direct invoker of what it forwards)
+        addrs.push(e.register(fwd_c::Fwd, ()));
+        let fwd = addrs.len() - 1;
         let sc = addrs.iter().map(|a| xdr::ScAddress::from(a)).collect();
         let nall0 = addrs.len();
-        let mut w = World { e, flav, tok, asset, idv, addrs, sc, nu, start, min_temp, max_ttl, offset, m: Mirror::default(), items: vec![], dead: false, genesis: String::new(), rtarget: vec![None; nall0], appr: vec![vec![None; nall0]; nall0] };
+        let mut w = World { e, flav, tok, asset, idv, addrs, fwd, sc, nu, start, min_temp, max_ttl, offset, m: Mirror::default(), items: vec![], dead: false, genesis: String::new(), rtarget: vec![None; nall0], appr: vec![vec![None; nall0]; nall0] };
         w.m.now = start;
         w.genesis = guarded(|| w.observe()).unwrap_or_else(|| sentinel_obs(start));
         w
     }
 
     fn a(&self, i: usize) -> &Address { &self.addrs[i] }
+    fn listed(&self, i: usize) -> bool { self.m.listed.get(i).copied().unwrap_or(false) }
+    fn addr_frozen(&self, i: usize) -> bool { self.m.afrozen.get(i).copied().unwrap_or(false) }
     fn now(&self) -> u32 { self.e.ledger().sequence() }
 
     /// invoke `f(args)` on `contract` with exactly the addresses `auths` authorising this
@@ -371,10 +393,10 @@ impl World {
         for &i in auths { if i < self.nu && !seen.contains(&i) { seen.push(i); } }
         let mocks: Vec<MockAuth> = seen.iter().map(|&i| MockAuth { address: &self.addrs[i], invoke: &inv }).collect();
         e.mock_auths(&mocks);
-        let r = e.try_invoke_contract::<Val, soroban_sdk::Error>(contract, &Symbol::new(e, f), args);
+        let r = self.call_maybe_forwarded(contract, f, args, auths);
         let evs = self.events();
         e.mock_auths(&[]);
-        match r { Ok(Ok(v)) => (Some(v), evs), _ => (None, evs) }
+        match r { Some(v) => (Some(v), evs), None => (None, evs) }
     }
 
     /// like `invoke`, but only the signers listed in `with_sub` have the nested sub-invocations in their
@@ -385,6 +407,7 @@ impl World {
         let inv_full = MockAuthInvoke { contract, fn_name: f, args: args.clone(), sub_invokes: &sub_invokes };
         let inv_root = MockAuthInvoke { contract, fn_name: f, args: args.clone(), sub_invokes: &[] };
         let mut seen: Vec<usize> = vec![];
+        assert!(with_sub.iter().all(|&i| i < self.nu), "only users can authorise the nested asset-token call");
         for &i in auths.iter().chain(with_sub.iter()) { if i < self.nu && !seen.contains(&i) { seen.push(i); } }
         // a signer of the nested call that does not sign the root at all: its entry is rooted at the nested call
         let nested_only: Vec<MockAuthInvoke> = subs.iter().map(|(c, f, a)| MockAuthInvoke { contract: c, fn_name: f, args: a.clone(), sub_invokes: &[] }).collect();
@@ -396,10 +419,27 @@ impl World {
             else if let Some(n0) = nested_only.first() { mocks.push(MockAuth { address: &self.addrs[i], invoke: n0 }); }
         }
         e.mock_auths(&mocks);
-        let r = e.try_invoke_contract::<Val, soroban_sdk::Error>(contract, &Symbol::new(e, f), args);
+        let r = self.call_maybe_forwarded(contract, f, args, auths);
         let evs = self.events();
         e.mock_auths(&[]);
-        match r { Ok(Ok(v)) => (Some(v), evs), _ => (None, evs) }
+        match r { Some(v) => (Some(v), evs), None => (None, evs) }
+    }
+
+    /// the root invocation: direct, or - when the forwarder is among the authorising addresses - through the
+    /// forwarder contract (then the forwarder is the direct invoker of the token call and its address is
+    /// authorised by the host's invoker rule; the users' mocked entries are rooted at the token call as before)
+    fn call_maybe_forwarded(&self, contract: &Address, f: &str, args: SVec<Val>, auths: &[usize]) -> Option<Val> {
+        let e = &self.e;
+        // only users (mocked entries) and the forwarder (invoker rule) can authorise; any other index in an
+        // authorisation set would make the model believe in a signature that the harness cannot attach
+        assert!(auths.iter().all(|&i| i < self.nu || i == self.fwd), "authorisation set names a non-signing address");
+        let r = if auths.contains(&self.fwd) {
+            let fargs: SVec<Val> = soroban_sdk::vec![e, contract.to_val(), Symbol::new(e, f).to_val(), args.to_val()];
+            e.try_invoke_contract::<Val, soroban_sdk::Error>(&self.addrs[self.fwd], &Symbol::new(e, "call"), fargs)
+        } else {
+            e.try_invoke_contract::<Val, soroban_sdk::Error>(contract, &Symbol::new(e, f), args)
+        };
+        match r { Ok(Ok(v)) => Some(v), _ => None }
     }
 
     fn idx_of(&self, a: &xdr::ScAddress) -> String {
@@ -491,11 +531,13 @@ impl World {
         let mut extra: Vec<String> = vec![];
         let mut abal = vec![];
         let mut frozen = vec![];
+        let mut listed: Vec<bool> = vec![];
+        let mut afrozen: Vec<bool> = vec![];
         let gz = |r: Option<i128>| -> String { z(r.unwrap_or(SENTINEL)) };
         match self.flav {
             Flav::Base => {}
-            Flav::Allow => e.as_contract(&tok, || for a in addrs.iter() { extra.push(gz(guarded(|| stellar_tokens::fungible::allowlist::AllowList::allowed(&e, a) as i128))); }),
-            Flav::Block => e.as_contract(&tok, || for a in addrs.iter() { extra.push(gz(guarded(|| stellar_tokens::fungible::blocklist::BlockList::blocked(&e, a) as i128))); }),
+            Flav::Allow => e.as_contract(&tok, || for a in addrs.iter() { let r = guarded(|| stellar_tokens::fungible::allowlist::AllowList::allowed(&e, a) as i128); listed.push(r == Some(1)); extra.push(gz(r)); }),
+            Flav::Block => e.as_contract(&tok, || for a in addrs.iter() { let r = guarded(|| stellar_tokens::fungible::blocklist::BlockList::blocked(&e, a) as i128); listed.push(r == Some(1)); extra.push(gz(r)); }),
             Flav::Votes => e.as_contract(&tok, || {
                 use stellar_governance::votes::{get_delegate, get_total_supply, get_votes, get_voting_units};
                 let gu = |r: Option<u128>| -> String { match r { Some(v) => zu(v), None => z(SENTINEL) } };
@@ -521,7 +563,7 @@ impl World {
                     let f = guarded(|| RWA::get_frozen_tokens(&e, a)).unwrap_or(SENTINEL);
                     frozen.push(f);
                     extra.push(z(f));
-                    extra.push(gz(guarded(|| RWA::is_frozen(&e, a) as i128)));
+                    let r = guarded(|| RWA::is_frozen(&e, a) as i128); afrozen.push(r == Some(1)); extra.push(gz(r));
                 }
             }),
         }
@@ -532,7 +574,7 @@ impl World {
             if (am, lu, ttl) == (0, 0, -1) { continue; }
             allow_s.push(format!("(({}, {}), (({}, {}), {}))", na(o), na(s), z(am), lu, z(ttl as i128)));
         } }
-        self.m = Mirror { now, supply, bal, allow, abal, frozen };
+        self.m = Mirror { now, supply, bal, allow, abal, frozen, listed, afrozen };
         format!("{{| o_now := {}; o_supply := {}; o_bal := {}; o_allow := {}; o_extra := {} |}}", now, z(supply), list(&bal_s), list(&allow_s), list(&extra))
     }
 
@@ -677,8 +719,30 @@ impl World {
             }
             if a > 0 && m.allow[s][f].0 >= a && al < a { v.push(format!("{}/only-reverse-allowance", k)); }
         };
+        // K1: special addresses as parties - the token contract itself, another registered contract (the
+        // forwarder; for the vault also the asset token), the account-type address
+        let nu = self.nu; let fwd = self.fwd; let is_vault = self.flav == Flav::Vault;
+        let party = |v: &mut Vec<String>, k: &str, role: &str, i: usize| {
+            if i == nu { v.push(format!("{}/{}-is-token-contract", k, role)); }
+            if i == fwd { v.push(format!("{}/{}-is-other-contract", k, role)); }
+            if is_vault && i == nu + 2 { v.push(format!("{}/{}-is-asset-contract", k, role)); }
+            if i == nu + 1 { v.push(format!("{}/{}-is-account-address", k, role)); }
+        };
+        // K2: the amount catalogue (magic numbers of plausible fast paths)
+        if let Some(a) = match c { C::Mint(_, a) | C::Transfer(_, _, _, _, a) | C::TransferFrom(_, _, _, _, a) | C::Approve(_, _, _, a, _) | C::Burn(_, _, a)
+                                   | C::BurnFrom(_, _, _, a) | C::VDeposit(_, _, a, ..) | C::VRedeem(_, a, ..) | C::RBurn(_, a) | C::RForced(_, _, a) => Some(*a), _ => None } {
+            if let Some((name, _)) = amount_catalogue().iter().find(|(_, x)| *x == a) { v.push(format!("amount/{}", name)); }
+        }
         match c {
             C::Transfer(au, f, t, mx, a) => {
+                party(&mut v, "transfer", "from", *f); party(&mut v, "transfer", "to", *t);
+                if au.contains(&fwd) && au.len() > 1 { v.push("transfer/forwarded-with-user-signers".into()); }
+                if let Some(id) = mx { if *id == 0 { v.push("transfer/muxed-id-zero".into()); } if *id == u64::MAX { v.push("transfer/muxed-id-max".into()); } }
+                if mx.is_some() && self.flav == Flav::Block && self.listed(*t) { v.push("transfer/muxed-to-blocked".into()); }
+                if mx.is_some() && self.flav == Flav::Allow && self.listed(*t) { v.push("transfer/muxed-to-allowed".into()); }
+                if mx.is_some() && self.flav == Flav::Allow && !self.listed(*t) { v.push("transfer/muxed-to-not-allowed".into()); }
+                if mx.is_some() && self.flav == Flav::Rwa && self.addr_frozen(*t) { v.push("transfer/muxed-to-frozen".into()); }
+                if *a == 1 && m.bal[*f] == 0 { v.push("transfer/one-from-empty".into()); }
                 if !au.contains(f) { v.push("transfer/holder-not-signing".into()); }
                 if au.is_empty() { v.push("transfer/no-auth".into()); }
                 if au.len() > 1 && au.contains(f) { v.push("transfer/extra-signers".into()); }
@@ -687,30 +751,52 @@ impl World {
                 if *f < m.bal.len() { amt_cls(&mut v, "transfer", *a, m.bal[*f]); }
             }
             C::Burn(au, f, a) => {
+                party(&mut v, "burn", "from", *f);
+                if *a == 1 && m.bal[*f] == 0 { v.push("burn/one-from-empty".into()); }
                 if !au.contains(f) { v.push("burn/holder-not-signing".into()); }
                 amt_cls(&mut v, "burn", *a, m.bal[*f]);
             }
             C::TransferFrom(au, s, f, t, a) => {
+                party(&mut v, "transfer_from", "spender", *s); party(&mut v, "transfer_from", "from", *f); party(&mut v, "transfer_from", "to", *t);
+                if *a == 1 && m.allow[*f][*s].0 == 0 { v.push("transfer_from/one-without-allowance".into()); }
                 spend_cls(&mut v, "transfer_from", au, *s, *f, *a);
                 if f == t { v.push("transfer_from/self".into()); }
                 if s == t && s != f { v.push("transfer_from/spender-is-recipient".into()); }
                 if s == f && f == t { v.push("transfer_from/all-three-aliased".into()); }
                 if a > &m.bal[*f] && *a <= m.allow[*f][*s].0 { v.push("transfer_from/allowance-exceeds-balance".into()); }
             }
-            C::BurnFrom(au, s, f, a) => spend_cls(&mut v, "burn_from", au, *s, *f, *a),
+            C::BurnFrom(au, s, f, a) => {
+                party(&mut v, "burn_from", "spender", *s); party(&mut v, "burn_from", "from", *f);
+                if *a == 1 && m.allow[*f][*s].0 == 0 { v.push("burn_from/one-without-allowance".into()); }
+                spend_cls(&mut v, "burn_from", au, *s, *f, *a)
+            }
             C::VWithdraw(au, _, r, w, o) | C::VRedeem(au, _, r, w, o) => {
+                party(&mut v, "vault_out", "receiver", *r); party(&mut v, "vault_out", "owner", *w); party(&mut v, "vault_out", "operator", *o);
+                if let C::VWithdraw(_, x, ..) = c {
+                    // withdraw by a third-party operator: at 1 share per asset (offset 0, no donation) the shares burned = assets
+                    if o != w && self.offset == 0 && m.supply == m.abal[nu] {
+                        if *x > 0 && *x == m.allow[*w][*o].0 { v.push("vault_out/withdraw-exact-allowance".into()); }
+                        if *x > 0 && Some(*x) == m.allow[*w][*o].0.checked_add(1) { v.push("vault_out/withdraw-allowance-plus-1".into()); }
+                    }
+                }
                 if !au.contains(o) { v.push("vault_out/operator-not-signing".into()); }
                 if o != w { v.push("vault_out/operator-is-not-owner".into()); }
                 if o != w && !au.contains(o) && au.contains(w) { v.push("vault_out/owner-signs-instead".into()); }
                 if o != w && o == r { v.push("vault_out/operator-is-receiver".into()); }
                 if o != w { if let C::VRedeem(_, x, ..) = c { spend_cls(&mut v, "vault_out", au, *o, *w, *x); } }
             }
-            C::VDeposit(au, sb, _, _, f, o) | C::VMint(au, sb, _, _, f, o) => {
+            C::VDeposit(au, sb, _, r, f, o) | C::VMint(au, sb, _, r, f, o) => {
+                party(&mut v, "vault_in", "receiver", *r); party(&mut v, "vault_in", "from", *f); party(&mut v, "vault_in", "operator", *o);
+                if o != f { if let C::VMint(..) = c { v.push("vault_in/mint-operator-is-not-payer".into()); } }
                 if !au.contains(o) { v.push("vault_in/operator-not-signing".into()); }
                 if au.contains(o) && !sb.contains(o) { v.push("vault_in/operator-signs-root-only".into()); }
                 if o != f { v.push("vault_in/operator-is-not-payer".into()); }
             }
             C::Approve(au, o, s, a, lu) => {
+                party(&mut v, "approve", "owner", *o); party(&mut v, "approve", "spender", *s);
+                if now == 0 && *lu == 0 && *a > 0 { v.push("approve/live-until-zero-at-ledger-zero".into()); }
+                if *lu == 1 { v.push("approve/live-until-one".into()); }
+                if *lu == u32::MAX { v.push("approve/live-until-u32-max".into()); }
                 let maxl = now + self.max_ttl as i64 - 1;
                 let lu = *lu as i64;
                 if !au.contains(o) { v.push("approve/owner-not-signing".into()); }
@@ -731,6 +817,8 @@ impl World {
             }
             C::Advance(k) => {
                 let k = *k as i64;
+                if k == 0 { v.push("advance/zero".into()); }
+                if now == 0 && k > 0 { v.push("advance/from-ledger-zero".into()); }
                 if k >= 17_281 { v.push("advance/gap-over-1-day".into()); }
                 if k >= 600_000 { v.push("advance/gap-over-30-days".into()); }
                 if k >= 4_000_000 { v.push("advance/gap-4M".into()); }
@@ -746,7 +834,21 @@ impl World {
                 } }
                 v.sort(); v.dedup();
             }
-            C::Mint(_, a) => {
+            C::Delegate(au, a, d) => {
+                party(&mut v, "delegate", "account", *a); party(&mut v, "delegate", "delegatee", *d);
+                if a == d { v.push("delegate/self".into()); }
+                if !au.contains(a) { v.push("delegate/account-not-signing".into()); }
+            }
+            C::SetListed(a, _) => party(&mut v, "set_listed", "user", *a),
+            C::QBalance(a) => party(&mut v, "q_balance", "account", *a),
+            C::QAllowance(o, s) => { party(&mut v, "q_allowance", "owner", *o); party(&mut v, "q_allowance", "spender", *s); }
+            C::RForced(f, t, _) => { party(&mut v, "r_forced", "from", *f); party(&mut v, "r_forced", "to", *t); if f == t { v.push("r_forced/self".into()); } }
+            C::RBurn(u, _) => party(&mut v, "r_burn", "account", *u),
+            C::RRecover(o, nw) => { party(&mut v, "r_recover", "old", *o); party(&mut v, "r_recover", "new", *nw); if o == nw { v.push("r_recover/self".into()); } }
+            C::RFreeze(u, _) => party(&mut v, "r_freeze", "account", *u),
+            C::RSetFrozen(u, _) => party(&mut v, "r_set_frozen", "account", *u),
+            C::Mint(t, a) => {
+                party(&mut v, "mint", "to", *t);
                 if *a < 0 { v.push("mint/negative".into()); }
                 if *a == 0 { v.push("mint/zero".into()); }
                 if *a > 0 && *a > i128::MAX.saturating_sub(m.supply) { v.push("mint/supply-overflow".into()); }
@@ -778,6 +880,18 @@ impl World {
 // ---------------------------------------------------------------------------------------------
 #[derive(Clone, Copy, PartialEq)]
 pub enum Mode { Supply, Auth }
+
+/// K2: amounts at which a plausible fast path / narrower integer type / scale constant would switch
+/// (2^k and 2^k +- 1 around the u32 / i64 / u64 limits, 10^k +- 1 around the decimals scale 10^7, 10^9 and 10^18)
+pub fn amount_catalogue() -> Vec<(&'static str, i128)> {
+    let p = |k: u32| 1i128 << k;
+    let t = |k: u32| 10i128.pow(k);
+    vec![("1", 1), ("2", 2),
+         ("2p31-1", p(31) - 1), ("2p31", p(31)), ("2p32-1", p(32) - 1), ("2p32", p(32)), ("2p32+1", p(32) + 1),
+         ("2p63-1", p(63) - 1), ("2p63", p(63)), ("2p63+1", p(63) + 1), ("2p64-1", p(64) - 1), ("2p64", p(64)), ("2p64+1", p(64) + 1),
+         ("10p7-1", t(7) - 1), ("10p7", t(7)), ("10p7+1", t(7) + 1), ("10p9-1", t(9) - 1), ("10p9", t(9)), ("10p9+1", t(9) + 1),
+         ("10p18-1", t(18) - 1), ("10p18", t(18)), ("10p18+1", t(18) + 1), ("2p96", p(96)), ("2p126", p(126)), ("2p127-2", i128::MAX - 1)]
+}
 
 fn near(rng: &mut Rng, v: i128) -> i128 { v.saturating_add(rng.range(-1, 1) as i128) }
 
@@ -858,10 +972,16 @@ pub fn gen_call(w: &World, rng: &mut Rng, lat: &[i128], mode: Mode) -> C {
     // any address of the universe, mostly users
     let any = |rng: &mut Rng| -> usize { if rng.chance(1, 9) { nu + rng.below((nall - nu) as u64) as usize } else { rng.below(nu as u64) as usize } };
     let user = |rng: &mut Rng| -> usize { rng.below(nu as u64) as usize };
+    let fwd = w.fwd;
     let holder = |rng: &mut Rng| -> usize {
+        // now and then a contract is the acting party: the forwarder (it can authorise: invoker rule) or the
+        // token contract itself (nobody can authorise for it)
+        if rng.chance(1, 12) { return if rng.chance(2, 3) { fwd } else { nu }; }
         let hs: Vec<usize> = (0..nu).filter(|i| m.bal[*i] > 0).collect();
         if hs.is_empty() || rng.chance(1, 6) { rng.below(nu as u64) as usize } else { *rng.pick(&hs) }
     };
+    // who signs for party i: a user or the forwarder signs for itself; for any other address somebody else
+    let signer = |rng: &mut Rng, i: usize| -> usize { if i < nu || i == fwd { i } else { rng.below(nu as u64) as usize } };
     // an (owner, spender) pair with a positive allowance, if any
     let live_pair = |rng: &mut Rng| -> Option<(usize, usize)> {
         let mut ps = vec![];
@@ -873,7 +993,7 @@ pub fn gen_call(w: &World, rng: &mut Rng, lat: &[i128], mode: Mode) -> C {
     if flavour_specific {
         match w.flav {
             Flav::Allow | Flav::Block => return C::SetListed(any(rng), rng.chance(if w.flav == Flav::Allow { 3 } else { 1 }, 4)),
-            Flav::Votes => { let a = user(rng); let d = any(rng); return C::Delegate(pick_auths(rng, nu, a, mode), a, d); }
+            Flav::Votes => { let a = if rng.chance(1, 10) { fwd } else { user(rng) }; let d = any(rng); return C::Delegate(pick_auths(rng, nu, a, mode), a, d); }
             Flav::Vault => {
                 let op = user(rng);
                 let other = if rng.chance(2, 3) { op } else { user(rng) };
@@ -884,6 +1004,12 @@ pub fn gen_call(w: &World, rng: &mut Rng, lat: &[i128], mode: Mode) -> C {
                     1 => { let o = user(rng); C::AssetApprove(pick_auths(rng, nu, o, mode), o, user(rng), pick_amt(rng, lat, &[100]), pick_lu(rng, w)) }
                     2 => { let sb = pick_sub(rng, &au); C::VDeposit(au, sb, pick_amt(rng, lat, &[m.abal[other], 100]), recv, other, op) }
                     3 => { let sb = pick_sub(rng, &au); C::VMint(au, sb, pick_amt(rng, lat, &[100]), recv, other, op) }
+                    4 | 5 if rng.chance(1, 8) => {
+                        // the forwarder contract as operator (of its own shares or of somebody's allowance), or the vault as owner
+                        let owner = match rng.below(3) { 0 => fwd, 1 => nu, _ => other };
+                        let au = pick_auths(rng, nu, fwd, mode);
+                        C::VRedeem(au, pick_amt(rng, lat, &[m.bal[owner], m.allow[owner][fwd].0]), recv, owner, fwd)
+                    }
                     4 => C::VWithdraw(au, pick_amt(rng, lat, &[m.bal[other], 10]), recv, other, op),
                     5 => C::VRedeem(au, pick_amt(rng, lat, &[m.bal[other], m.allow[other][op].0]), recv, other, op),
                     _ => { let sb = pick_sub(rng, &au); C::VDeposit(au, sb, rng.range(1, 200) as i128, recv, other, op) }
@@ -919,30 +1045,33 @@ pub fn gen_call(w: &World, rng: &mut Rng, lat: &[i128], mode: Mode) -> C {
             let f = holder(rng);
             let t = if rng.chance(1, 8) { f } else { any(rng) };
             let mux = if t == nu + 1 && rng.chance(3, 4) { Some(rng.below(1 << 40)) } else { None };
-            C::Transfer(pick_auths(rng, nu, f, mode), f, t, mux, pick_amt(rng, lat, &[m.bal[f]]))
+            let sg = signer(rng, f);
+            C::Transfer(pick_auths(rng, nu, sg, mode), f, t, mux, pick_amt(rng, lat, &[m.bal[f]]))
         }
         34..=51 => {
             let (f, s) = match live_pair(rng) { Some(p) if rng.chance(4, 5) => p, _ => (holder(rng), any(rng)) };
             // sometimes with the roles swapped (the allowance runs the other way)
             let (f, s) = if rng.chance(1, 5) { (s, f) } else { (f, s) };
             let t = match rng.below(8) { 0 => f, 1 => s, _ => any(rng) };
-            let s_auth = if s < nu { s } else { user(rng) };
+            let s_auth = signer(rng, s);
             C::TransferFrom(pick_auths(rng, nu, s_auth, mode), s, f, t, pick_amt(rng, lat, &[m.allow[f][s].0, m.bal[f]]))
         }
         52..=67 => {
             let o = holder(rng);
             let s = if rng.chance(1, 10) { o } else { any(rng) };
-            C::Approve(pick_auths(rng, nu, o, mode), o, s, pick_amt(rng, lat, &[m.bal[o], m.allow[o][s].0]), pick_lu(rng, w))
+            let sg = signer(rng, o);
+            C::Approve(pick_auths(rng, nu, sg, mode), o, s, pick_amt(rng, lat, &[m.bal[o], m.allow[o][s].0]), pick_lu(rng, w))
         }
         68..=75 => {
             let f = holder(rng);
-            if w.flav.has_burn() { C::Burn(pick_auths(rng, nu, f, mode), f, pick_amt(rng, lat, &[m.bal[f]])) }
-            else { C::Transfer(pick_auths(rng, nu, f, mode), f, any(rng), None, pick_amt(rng, lat, &[m.bal[f]])) }
+            let sg = signer(rng, f);
+            if w.flav.has_burn() { C::Burn(pick_auths(rng, nu, sg, mode), f, pick_amt(rng, lat, &[m.bal[f]])) }
+            else { C::Transfer(pick_auths(rng, nu, sg, mode), f, any(rng), None, pick_amt(rng, lat, &[m.bal[f]])) }
         }
         76..=83 => {
             let (f, s) = match live_pair(rng) { Some(p) if rng.chance(4, 5) => p, _ => (holder(rng), any(rng)) };
             let (f, s) = if rng.chance(1, 7) { (s, f) } else { (f, s) };
-            let s_auth = if s < nu { s } else { user(rng) };
+            let s_auth = signer(rng, s);
             if w.flav.has_burn() { C::BurnFrom(pick_auths(rng, nu, s_auth, mode), s, f, pick_amt(rng, lat, &[m.allow[f][s].0, m.bal[f]])) }
             else { C::TransferFrom(pick_auths(rng, nu, s_auth, mode), s, f, any(rng), pick_amt(rng, lat, &[m.allow[f][s].0, m.bal[f]])) }
         }
@@ -1451,6 +1580,395 @@ fn scenario_flavour(out: &mut Out, flav: Flav) {
     }
 }
 
+/// K1 - special addresses as parties: the token contract's own address, another registered contract (the
+/// forwarder, which authorises as the direct invoker; for the vault also the asset token's address) and the
+/// account-type address as from / to / owner / spender / operator / receiver / delegatee / queried account.
+/// Nobody can authorise for the token contract from outside, so every call that needs ITS signature must fail
+/// whoever signs; the forwarder's own calls succeed exactly when they go through the forwarder.
+fn scenario_special_parties(out: &mut Out, flav: Flav) {
+    let mut w = World::new(flav, 3, 300, 1, 5000, 0);
+    let (t, acct, f) = (w.nu, w.nu + 1, w.fwd);
+    let nall = w.addrs.len();
+    let lu = 400u32;
+    let burn = flav.has_burn();
+    if flav == Flav::Allow { for i in 0..nall { w.step(out, C::SetListed(i, true)); } }
+    // every special address holds tokens
+    if flav == Flav::Vault {
+        for i in 0..3 { w.step(out, C::AssetMint(i, 10_000)); }
+        w.step(out, C::VDeposit(vec![0], vec![0], 1000, 0, 0, 0));
+        w.step(out, C::VDeposit(vec![1], vec![1], 100, t, 1, 1));      // shares minted to the vault itself
+        w.step(out, C::VDeposit(vec![1], vec![1], 70, f, 1, 1));       // ... to the forwarder contract
+        w.step(out, C::VDeposit(vec![1], vec![1], 50, acct, 1, 1));    // ... to the account-type address
+        w.step(out, C::VDeposit(vec![1], vec![1], 30, t + 2, 1, 1));   // ... to the asset token's address
+        w.step(out, C::VMint(vec![2], vec![2], 20, t, 2, 2));
+    } else {
+        w.step(out, C::Mint(0, 1000)); w.step(out, C::Mint(t, 100)); w.step(out, C::Mint(f, 70)); w.step(out, C::Mint(acct, 50));
+    }
+    w.step(out, C::QBalance(t)); w.step(out, C::QBalance(f)); w.step(out, C::QBalance(acct)); w.step(out, C::QSupply);
+    // the token contract's own tokens: no signature from outside can stand for the contract
+    for au in [vec![], vec![0], vec![0, 1, 2]] {
+        w.step(out, C::Transfer(au.clone(), t, 0, None, 10));
+        w.step(out, C::Approve(au.clone(), t, 0, 10, lu));
+        if burn { w.step(out, C::Burn(au.clone(), t, 5)); }
+    }
+    w.step(out, C::Transfer(vec![], t, t, None, 0));              // not even a zero self-transfer
+    w.step(out, C::Approve(vec![0], 0, t, 20, lu));               // an allowance granted TO the contract
+    w.step(out, C::QAllowance(0, t));
+    w.step(out, C::QAllowance(t, 0));
+    w.step(out, C::TransferFrom(vec![], t, 0, 1, 5));             // ... which the contract cannot use from outside
+    w.step(out, C::TransferFrom(vec![0], t, 0, 1, 5));
+    w.step(out, C::TransferFrom(vec![1], 1, t, 1, 5));            // from the contract, no allowance
+    w.step(out, C::TransferFrom(vec![1], 1, t, 1, 0));            // zero amount: moves nothing
+    if burn { w.step(out, C::BurnFrom(vec![], t, 0, 5)); w.step(out, C::BurnFrom(vec![1], 1, t, 5)); }
+    w.step(out, C::Transfer(vec![0], 0, t, None, 7));             // to the contract itself
+    w.step(out, C::TransferFrom(vec![0], 0, 0, t, 0));
+    // the account-type address holds tokens and never signs
+    w.step(out, C::Transfer(vec![], acct, 0, None, 1));
+    w.step(out, C::Transfer(vec![0], acct, 0, None, 1));
+    w.step(out, C::Approve(vec![0], acct, 0, 5, lu));
+    // another registered contract: it authorises exactly when it is the direct invoker
+    w.step(out, C::Transfer(vec![], f, 1, None, 5));
+    w.step(out, C::Transfer(vec![0], f, 1, None, 5));
+    w.step(out, C::Transfer(vec![0, 1, 2], f, 1, None, 5));
+    w.step(out, C::Transfer(vec![f], f, 1, None, 5));
+    w.step(out, C::Transfer(vec![f], f, f, None, 5));             // contract to itself
+    w.step(out, C::Transfer(vec![f], f, t, None, 1));             // contract to the token contract
+    w.step(out, C::Transfer(vec![f], 0, 1, None, 5));             // the forwarder forwards, the holder does not sign
+    w.step(out, C::Transfer(vec![f, 0], 0, 1, None, 5));          // the holder's entry beneath the forwarder's frame
+    w.step(out, C::Transfer(vec![0], 0, f, None, 9));
+    w.step(out, C::Approve(vec![], f, 2, 30, lu));
+    w.step(out, C::Approve(vec![2], f, 2, 30, lu));
+    w.step(out, C::Approve(vec![f], f, 2, 30, lu));
+    w.step(out, C::TransferFrom(vec![2], 2, f, 0, 10));           // a user spends the contract's allowance
+    w.step(out, C::Approve(vec![0], 0, f, 15, lu));
+    w.step(out, C::TransferFrom(vec![], f, 0, 1, 5));
+    w.step(out, C::TransferFrom(vec![0], f, 0, 1, 5));
+    w.step(out, C::TransferFrom(vec![f], f, 0, 1, 5));            // the contract spends a user's allowance
+    w.step(out, C::TransferFrom(vec![f], f, 0, f, 10));           // exactly the rest, to itself
+    w.step(out, C::TransferFrom(vec![f], f, 0, 1, 1));            // exhausted
+    w.step(out, C::TransferFrom(vec![f], f, 1, 0, 1));            // no allowance 1 -> contract
+    if burn {
+        w.step(out, C::Burn(vec![0], f, 3));
+        w.step(out, C::Burn(vec![f], f, 3));
+        w.step(out, C::Approve(vec![0], 0, f, 4, lu));
+        w.step(out, C::BurnFrom(vec![], f, 0, 1));
+        w.step(out, C::BurnFrom(vec![f], f, 0, 2));
+    }
+    match flav {
+        Flav::Allow => {
+            w.step(out, C::SetListed(t, false));
+            w.step(out, C::Transfer(vec![0], 0, t, None, 1));                 // the contract itself is not allowed
+            w.step(out, C::SetListed(f, false));
+            w.step(out, C::Transfer(vec![f], f, 1, None, 1));
+            w.step(out, C::Approve(vec![f], f, 1, 1, lu));
+            w.step(out, C::Transfer(vec![0], 0, f, None, 1));
+            w.step(out, C::SetListed(f, true));
+            w.step(out, C::Transfer(vec![f], f, 1, None, 1));
+            // muxed destinations: the gate looks at the underlying address, whatever the id
+            w.step(out, C::Transfer(vec![0], 0, acct, Some(0), 1));
+            w.step(out, C::Transfer(vec![0], 0, acct, Some(u64::MAX), 1));
+            w.step(out, C::SetListed(acct, false));
+            w.step(out, C::Transfer(vec![0], 0, acct, Some(9), 1));
+            w.step(out, C::Transfer(vec![0], 0, acct, Some(0), 0));
+        }
+        Flav::Block => {
+            w.step(out, C::SetListed(t, true));
+            w.step(out, C::Transfer(vec![0], 0, t, None, 1));                 // the contract itself blocked
+            w.step(out, C::SetListed(t, false));
+            w.step(out, C::SetListed(f, true));
+            w.step(out, C::Transfer(vec![f], f, 1, None, 1));
+            w.step(out, C::Approve(vec![f], f, 1, 1, lu));
+            w.step(out, C::Transfer(vec![0], 0, f, None, 1));
+            w.step(out, C::SetListed(f, false));
+            w.step(out, C::Transfer(vec![f], f, 1, None, 1));
+            w.step(out, C::Transfer(vec![0], 0, acct, Some(0), 1));
+            w.step(out, C::Transfer(vec![0], 0, acct, Some(u64::MAX), 1));
+            w.step(out, C::SetListed(acct, true));
+            w.step(out, C::Transfer(vec![0], 0, acct, Some(9), 1));
+            w.step(out, C::Transfer(vec![0], 0, acct, Some(0), 0));
+        }
+        Flav::Votes => {
+            w.step(out, C::Delegate(vec![0], 0, t));                            // delegate to the token contract
+            w.step(out, C::Delegate(vec![], t, 0));
+            w.step(out, C::Delegate(vec![0], t, 0));                            // nobody delegates for the contract
+            w.step(out, C::Delegate(vec![0], f, 1));
+            w.step(out, C::Delegate(vec![f], f, 1));                            // a contract delegates its own units
+            w.step(out, C::Delegate(vec![1], 1, f));                            // ... and is a delegatee
+            w.step(out, C::Transfer(vec![f], f, 1, None, 3));
+            w.step(out, C::Delegate(vec![f], f, f));
+            w.step(out, C::Mint(t, 5));
+            w.step(out, C::Transfer(vec![0], 0, acct, Some(0), 1));
+            w.step(out, C::Transfer(vec![0], 0, acct, Some(u64::MAX), 1));
+        }
+        Flav::Vault => {
+            let asset = t + 2;
+            w.step(out, C::VRedeem(vec![1], 3, 1, t, 1));                       // the vault's own shares: no allowance for anybody
+            w.step(out, C::VRedeem(vec![], 3, t, t, t));
+            w.step(out, C::VRedeem(vec![0, 1, 2], 3, 0, t, t));
+            w.step(out, C::VWithdraw(vec![1], 1, 1, t, 1));
+            w.step(out, C::VRedeem(vec![0], 10, f, f, f));                      // a user cannot redeem the contract's shares
+            w.step(out, C::VRedeem(vec![f], 10, f, f, f));                      // the contract redeems its own shares
+            w.step(out, C::VWithdraw(vec![f], 5, 0, f, f));
+            w.step(out, C::VWithdraw(vec![0], 5, asset, 0, 0));                 // receiver = the asset token's own address
+            w.step(out, C::VRedeem(vec![0], 5, f, 0, 0));
+            w.step(out, C::VDeposit(vec![0], vec![0], 5, 0, t, 0));             // from = the vault: it gave no asset allowance
+            w.step(out, C::VDeposit(vec![f], vec![], 5, f, f, f));              // the forwarder is not the invoker of the nested asset call
+            w.step(out, C::VDeposit(vec![f, 0], vec![0], 5, 0, 0, f));
+            w.step(out, C::VMint(vec![f], vec![], 5, 0, 0, f));
+            w.step(out, C::Approve(vec![0], 0, f, 50, lu));
+            w.step(out, C::VRedeem(vec![f], 10, f, 0, f));                      // the contract as third-party operator
+            w.step(out, C::VRedeem(vec![f], 41, f, 0, f));
+            w.step(out, C::VWithdraw(vec![f], 40, 1, 0, f));                    // withdraw by operator: exactly the remaining allowance (1 share per asset)
+            w.step(out, C::VWithdraw(vec![f], 1, 1, 0, f));
+            w.step(out, C::Approve(vec![0], 0, 1, 10, lu));
+            w.step(out, C::VWithdraw(vec![1], 11, 1, 0, 1));                    // allowance + 1
+            w.step(out, C::VWithdraw(vec![1], 10, 1, 0, 1));                    // exact
+            w.step(out, C::AssetApprove(vec![1], 1, 2, 100, lu));
+            w.step(out, C::VMint(vec![2], vec![2], 7, 2, 1, 2));                // mint by an operator who is not the payer
+            w.step(out, C::Transfer(vec![0], 0, acct, Some(0), 1));
+            w.step(out, C::Transfer(vec![0], 0, acct, Some(u64::MAX), 1));
+            // (last: from here on a share is worth more than one asset)
+            w.step(out, C::VRedeem(vec![0], 5, t, 0, 0));                       // receiver = the vault itself: the assets stay
+            w.step(out, C::VWithdraw(vec![1], 3, t, 1, 1));
+        }
+        Flav::Rwa => {
+            w.step(out, C::RSetFrozen(t, true));
+            w.step(out, C::Transfer(vec![0], 0, t, None, 1));                   // the contract's own address frozen
+            w.step(out, C::RForced(t, 0, 5));                                   // supervisory: moves the contract's tokens
+            w.step(out, C::RSetFrozen(t, false));
+            w.step(out, C::RFreeze(t, 10));
+            w.step(out, C::RForced(t, t, 90));                                  // forced self-transfer beyond the free part
+            w.step(out, C::RBurn(t, 1));
+            w.step(out, C::RFreeze(f, 5));
+            let free = w.m.bal[f] - w.m.frozen[f];
+            w.step(out, C::Transfer(vec![f], f, 1, None, free + 1));
+            w.step(out, C::Transfer(vec![f], f, 1, None, free));                // exactly the free part
+            w.step(out, C::RSetRecovery(t, 1));
+            w.step(out, C::RRecover(t, 1));                                     // recovery out of the contract's own address
+            w.step(out, C::RSetRecovery(0, t));
+            w.step(out, C::RRecover(0, t));                                     // ... and into it
+            w.step(out, C::RSetRecovery(1, f));
+            w.step(out, C::RRecover(1, f));
+            w.step(out, C::RSetFrozen(acct, true));
+            w.step(out, C::Transfer(vec![f], f, acct, Some(0), 1));             // muxed destination whose address is frozen
+            w.step(out, C::RSetFrozen(acct, false));
+            w.step(out, C::Transfer(vec![f], f, acct, Some(0), 1));
+            w.step(out, C::Transfer(vec![f], f, acct, Some(u64::MAX), 1));
+        }
+        Flav::Base => {
+            w.step(out, C::Transfer(vec![0], 0, acct, Some(0), 1));
+            w.step(out, C::Transfer(vec![0], 0, acct, Some(u64::MAX), 1));
+            w.step(out, C::Transfer(vec![0], 0, acct, Some(1), 0));
+        }
+    }
+    w.step(out, C::QBalance(t)); w.step(out, C::QSupply);
+    w.finish(out, "special-parties");
+}
+
+/// K2 - amounts at which a fast path, a narrower integer type or a scale constant would switch: each is
+/// minted, probed one above the balance, moved, approved, spent exactly and destroyed again.
+fn scenario_amount_catalogue(out: &mut Out, flav: Flav) {
+    let mut w = World::new(flav, 3, 50, 1, 5000, 0);
+    if flav == Flav::Allow { for i in 0..3 { w.step(out, C::SetListed(i, true)); } }
+    // amount 1 against nothing
+    w.step(out, C::Transfer(vec![0], 0, 1, None, 1));
+    w.step(out, C::TransferFrom(vec![1], 1, 0, 2, 1));
+    if flav.has_burn() { w.step(out, C::Burn(vec![0], 0, 1)); w.step(out, C::BurnFrom(vec![1], 1, 0, 1)); }
+    for (_, a) in amount_catalogue() {
+        if flav == Flav::Vault { w.step(out, C::AssetMint(0, a)); w.step(out, C::VDeposit(vec![0], vec![0], a, 0, 0, 0)); } else { w.step(out, C::Mint(0, a)); }
+        w.step(out, C::Transfer(vec![0], 0, 1, None, a.saturating_add(1)));   // one above the balance
+        w.step(out, C::Transfer(vec![0], 0, 1, None, a));
+        w.step(out, C::Approve(vec![1], 1, 2, a, 90));
+        w.step(out, C::TransferFrom(vec![2], 2, 1, 0, a));                    // allowance = balance = amount
+        match flav {
+            Flav::Vault => { w.step(out, C::VRedeem(vec![0], a, 0, 0, 0)); }
+            Flav::Rwa => { w.step(out, C::RBurn(0, a)); }
+            _ => { w.step(out, C::Burn(vec![0], 0, a)); }
+        }
+    }
+    w.step(out, C::QSupply);
+    w.finish(out, "amount-catalogue");
+}
+
+/// K2 - ledger 0 / live_until 0 and 1 / u32::MAX: an allowance approved with live_until 0 at ledger 0 is valid
+/// for that ledger only (its storage entry lives on: min_temp_entry_ttl 16), "0" is not "never expires"
+fn scenario_ledger_zero(out: &mut Out, flav: Flav, min_temp: u32) {
+    let mut w = World::new_cfg(flav, 3, 0, min_temp, 4096, 5000, 0);
+    if flav == Flav::Allow { for i in 0..3 { w.step(out, C::SetListed(i, true)); } }
+    if flav == Flav::Vault { w.step(out, C::AssetMint(0, 1000)); w.step(out, C::VDeposit(vec![0], vec![0], 1000, 0, 0, 0)); } else { w.step(out, C::Mint(0, 1000)); }
+    let spend = |w: &mut World, out: &mut Out, sp: usize, amt: i128| -> bool {
+        if flav == Flav::Vault { w.step(out, C::VRedeem(vec![sp], amt, sp, 0, sp)) } else { w.step(out, C::TransferFrom(vec![sp], sp, 0, 2, amt)) }
+    };
+    w.step(out, C::Approve(vec![0], 0, 1, 10, 0));       // live_until 0 = the current ledger
+    w.step(out, C::QAllowance(0, 1));
+    spend(&mut w, out, 1, 3);
+    w.step(out, C::Advance(0));
+    w.step(out, C::QAllowance(0, 1));
+    w.step(out, C::Advance(1));                           // ledger 1: worth zero, the entry is still stored
+    w.step(out, C::QAllowance(0, 1));
+    spend(&mut w, out, 1, 1);
+    w.step(out, C::Approve(vec![0], 0, 1, 10, 0));       // now in the past
+    w.step(out, C::Approve(vec![0], 0, 1, 0, 0));
+    w.step(out, C::Approve(vec![0], 0, 2, 5, 1));        // live_until 1 = the current ledger
+    spend(&mut w, out, 2, 2);
+    w.step(out, C::Advance(1));
+    spend(&mut w, out, 2, 1);
+    w.step(out, C::QAllowance(0, 2));
+    w.step(out, C::Approve(vec![0], 0, 2, 5, u32::MAX));
+    w.step(out, C::Approve(vec![0], 0, 2, 0, u32::MAX));
+    w.step(out, C::Approve(vec![0], 0, 2, 5, 2 + 5000 - 1));
+    w.step(out, C::Advance(4998));
+    spend(&mut w, out, 2, 1);                             // last ledger of the longest possible allowance
+    w.step(out, C::Advance(1));
+    spend(&mut w, out, 2, 1);
+    w.finish(out, &format!("ledger-zero(min_temp={})", min_temp));
+}
+
+/// K6 / K5 / K3 - multi-step histories: a balance drained and refilled across transactions, one allowance read by
+/// sibling paths in turn, exhausted / revoked / expired allowances re-created, list removal and re-adding with a
+/// surviving allowance, freezes lifted and re-applied.  `hist` labels are set only when the history went as planned.
+fn scenario_histories(out: &mut Out, flav: Flav) {
+    let off = 0;
+    let mut w = World::new(flav, 3, 200, 16, 5000, off);
+    let burn = flav.has_burn();
+    let lu = 260u32;
+    if flav == Flav::Allow { for i in 0..3 { w.step(out, C::SetListed(i, true)); } }
+    if flav == Flav::Votes { w.step(out, C::Delegate(vec![0], 0, 1)); w.step(out, C::Delegate(vec![1], 1, 1)); }
+    let fund = |w: &mut World, out: &mut Out, a: i128| -> bool {
+        if flav == Flav::Vault { w.step(out, C::AssetMint(0, a)); w.step(out, C::VDeposit(vec![0], vec![0], a, 0, 0, 0)) } else { w.step(out, C::Mint(0, a)) }
+    };
+    let destroy = |w: &mut World, out: &mut Out, a: i128| -> bool {
+        match flav { Flav::Vault => w.step(out, C::VRedeem(vec![0], a, 0, 0, 0)), Flav::Rwa => w.step(out, C::RBurn(0, a)), _ => w.step(out, C::Burn(vec![0], 0, a)) }
+    };
+    let mark = |out: &mut Out, ok: bool, l: &str| { if ok { out.label(&format!("cls/history/{}/ok", l)); } };
+    // a balance drained to zero and refilled, the supply drained to zero and refilled
+    let mut ok = fund(&mut w, out, 10);
+    ok &= w.step(out, C::Transfer(vec![0], 0, 1, None, 10));
+    ok &= w.m.bal[0] == 0;
+    ok &= !w.step(out, C::Transfer(vec![0], 0, 1, None, 1));
+    ok &= w.step(out, C::Transfer(vec![1], 1, 0, None, 10));
+    ok &= destroy(&mut w, out, 10);
+    ok &= w.m.supply == 0;
+    ok &= fund(&mut w, out, 40);
+    ok &= w.m.bal[0] == 40 && w.m.supply == 40;
+    mark(out, ok, "balance-and-supply-drained-and-refilled");
+    // one allowance read by the sibling paths in turn
+    let mut ok = w.step(out, C::Approve(vec![0], 0, 1, 10, lu));
+    ok &= w.step(out, C::TransferFrom(vec![1], 1, 0, 2, 3));
+    ok &= match flav {
+        Flav::Vault => w.step(out, C::VRedeem(vec![1], 3, 1, 0, 1)),
+        _ if burn => w.step(out, C::BurnFrom(vec![1], 1, 0, 3)),
+        _ => w.step(out, C::TransferFrom(vec![1], 1, 0, 1, 3)),
+    };
+    ok &= w.m.allow[0][1].0 == 4;
+    ok &= !w.step(out, C::TransferFrom(vec![1], 1, 0, 2, 5));
+    if flav == Flav::Vault { ok &= !w.step(out, C::VWithdraw(vec![1], 5, 1, 0, 1)); }
+    if burn { ok &= !w.step(out, C::BurnFrom(vec![1], 1, 0, 5)); }
+    ok &= w.step(out, C::TransferFrom(vec![1], 1, 0, 2, 4));
+    mark(out, ok, "allowance-shared-by-sibling-paths");
+    let mut ok = !w.step(out, C::TransferFrom(vec![1], 1, 0, 2, 1));          // exhausted
+    ok &= w.step(out, C::Approve(vec![0], 0, 1, 6, lu));
+    ok &= w.step(out, C::TransferFrom(vec![1], 1, 0, 2, 6));
+    mark(out, ok, "re-approved-after-exhaustion");
+    let mut ok = w.step(out, C::Approve(vec![0], 0, 1, 5, lu));
+    ok &= w.step(out, C::Approve(vec![0], 0, 1, 0, lu));                        // revoked
+    ok &= !w.step(out, C::TransferFrom(vec![1], 1, 0, 2, 1));
+    ok &= w.step(out, C::Approve(vec![0], 0, 1, 2, lu));
+    ok &= w.step(out, C::TransferFrom(vec![1], 1, 0, 2, 2));
+    mark(out, ok, "re-approved-after-revocation");
+    let mut ok = w.step(out, C::Approve(vec![0], 0, 1, 5, 210));
+    ok &= w.step(out, C::Advance(11));                                          // 211: expired, the entry is still stored (min_temp 16)
+    ok &= !w.step(out, C::TransferFrom(vec![1], 1, 0, 2, 1));
+    ok &= w.step(out, C::Approve(vec![0], 0, 1, 3, 230));
+    ok &= w.step(out, C::TransferFrom(vec![1], 1, 0, 2, 3));
+    ok &= !w.step(out, C::TransferFrom(vec![1], 1, 0, 2, 1));
+    mark(out, ok, "re-approved-after-expiry");
+    // spender == owner with a self-allowance, also for burn_from
+    let mut ok = w.step(out, C::Approve(vec![0], 0, 0, 2, lu));
+    ok &= w.step(out, C::TransferFrom(vec![0], 0, 0, 1, 1));
+    if burn { ok &= w.step(out, C::BurnFrom(vec![0], 0, 0, 1)); ok &= !w.step(out, C::BurnFrom(vec![0], 0, 0, 1)); }
+    mark(out, ok, "self-allowance-spent");
+    match flav {
+        Flav::Allow | Flav::Block => {
+            let good = flav == Flav::Allow;
+            let mut ok = w.step(out, C::Approve(vec![0], 0, 1, 4, lu));
+            ok &= w.step(out, C::SetListed(0, !good));                          // the owner leaves the list / is blocked
+            ok &= !w.step(out, C::TransferFrom(vec![1], 1, 0, 2, 1));
+            ok &= !w.step(out, C::Approve(vec![], 0, 1, 0, lu));                 // nobody may wipe the allowance meanwhile
+            ok &= !w.step(out, C::Approve(vec![1], 0, 1, 0, lu));
+            ok &= !w.step(out, C::Approve(vec![0], 0, 1, 0, lu));
+            ok &= w.step(out, C::SetListed(0, good));
+            ok &= w.step(out, C::QAllowance(0, 1));
+            ok &= w.m.allow[0][1].0 == 4;
+            ok &= w.step(out, C::TransferFrom(vec![1], 1, 0, 2, 1));
+            mark(out, ok, "allowance-survives-delisting");
+            let mut ok = w.step(out, C::SetListed(2, !good));
+            ok &= !w.step(out, C::Transfer(vec![0], 0, 2, None, 1));
+            ok &= w.step(out, C::SetListed(2, good));
+            ok &= w.step(out, C::Transfer(vec![0], 0, 2, None, 1));
+            ok &= w.step(out, C::SetListed(2, !good));
+            ok &= !w.step(out, C::Transfer(vec![2], 2, 0, None, 1));
+            ok &= w.step(out, C::SetListed(2, good));
+            mark(out, ok, "listed-removed-re-added");
+        }
+        Flav::Votes => {
+            // units and delegated votes follow a balance through zero and back
+            let b0 = w.m.bal[0];
+            let mut ok = w.step(out, C::Transfer(vec![0], 0, 2, None, b0));
+            ok &= w.step(out, C::Delegate(vec![0], 0, 2));
+            ok &= w.step(out, C::Transfer(vec![2], 2, 0, None, b0));
+            ok &= w.step(out, C::Delegate(vec![0], 0, 1));
+            ok &= w.step(out, C::Burn(vec![0], 0, b0));
+            ok &= w.step(out, C::Mint(0, 9));
+            ok &= w.step(out, C::Delegate(vec![0], 0, 0));
+            mark(out, ok, "votes-follow-balance-through-zero");
+        }
+        Flav::Vault => {
+            // redeem everything (share supply back to zero with dust left), deposit again
+            let mut ok = true;
+            for i in 0..3 { let b = w.m.bal[i]; if b > 0 { ok &= w.step(out, C::VRedeem(vec![i], b, i, i, i)); } }
+            ok &= w.m.supply == 0;
+            ok &= w.step(out, C::AssetMint(w.nu, 3));                           // donation into the empty vault
+            ok &= w.step(out, C::VDeposit(vec![0], vec![0], 8, 0, 0, 0));
+            ok &= w.step(out, C::VMint(vec![0], vec![0], 1, 1, 0, 0));
+            let b = w.m.bal[0];
+            ok &= w.step(out, C::VRedeem(vec![0], b, 0, 0, 0));
+            mark(out, ok, "vault-emptied-and-refilled");
+        }
+        Flav::Rwa => {
+            let b0 = w.m.bal[0];
+            let mut ok = w.step(out, C::RFreeze(0, 5));
+            ok &= !w.step(out, C::Transfer(vec![0], 0, 1, None, b0 - 4));
+            ok &= w.step(out, C::Transfer(vec![0], 0, 1, None, b0 - 5));        // exactly the free part
+            ok &= !w.step(out, C::Transfer(vec![0], 0, 1, None, 1));
+            ok &= w.step(out, C::RUnfreeze(0, 5));
+            ok &= w.step(out, C::Transfer(vec![0], 0, 1, None, 1));
+            ok &= w.step(out, C::RFreeze(0, 2));
+            ok &= w.step(out, C::RForced(0, 0, 4));                             // forced self-transfer beyond the free part
+            ok &= w.step(out, C::RFreeze(0, 1));
+            mark(out, ok, "frozen-unfrozen-refrozen");
+            let mut ok = w.step(out, C::Approve(vec![1], 1, 2, 6, lu));
+            ok &= w.step(out, C::RPause(true));
+            ok &= !w.step(out, C::TransferFrom(vec![2], 2, 1, 0, 1));
+            ok &= w.step(out, C::RPause(false));
+            ok &= w.step(out, C::TransferFrom(vec![2], 2, 1, 0, 1));
+            ok &= w.step(out, C::RSetFrozen(1, true));
+            ok &= !w.step(out, C::TransferFrom(vec![2], 2, 1, 0, 1));
+            ok &= w.step(out, C::RSetFrozen(1, false));
+            ok &= w.step(out, C::TransferFrom(vec![2], 2, 1, 0, 5));
+            mark(out, ok, "allowance-survives-pause-and-freeze");
+            let mut ok = w.step(out, C::RSetRecovery(1, 2));
+            ok &= w.step(out, C::RRecover(1, 2));
+            ok &= w.step(out, C::RSetRecovery(2, 1));
+            ok &= w.step(out, C::RRecover(2, 1));                               // and back again
+            mark(out, ok, "recovered-there-and-back");
+        }
+        Flav::Base => {}
+    }
+    w.step(out, C::QSupply);
+    w.finish(out, "histories");
+}
+
 /// exhaustive small scope (thorough): every call sequence of length <= depth over 2 accounts x amounts
 fn exhaustive_base(out: &mut Out, depth: usize) {
     let amts = [0i128, 1, 2, i128::MAX];
@@ -1513,6 +2031,14 @@ pub fn run(pid: &str) {
         safely(&mut out, |out| scenario_flavour(out, f));
     }
     for &f in &[Flav::Base, Flav::Allow, Flav::Block, Flav::Vault, Flav::Rwa, Flav::Votes] { safely(&mut out, |out| scenario_roles(out, f)); }
+    // follow-up classes: special addresses as parties, amount catalogue, ledger 0, multi-step histories
+    for &f in &[Flav::Base, Flav::Allow, Flav::Block, Flav::Votes, Flav::Vault, Flav::Rwa] {
+        safely(&mut out, |out| scenario_special_parties(out, f));
+        safely(&mut out, |out| scenario_amount_catalogue(out, f));
+        safely(&mut out, |out| scenario_histories(out, f));
+    }
+    for &f in &[Flav::Base, Flav::Vault, Flav::Rwa] { safely(&mut out, |out| scenario_ledger_zero(out, f, 16)); }
+    safely(&mut out, |out| scenario_ledger_zero(out, Flav::Base, 1));
     for &f in &[Flav::Base, Flav::Rwa] { safely(&mut out, |out| scenario_ledger_near_u32_max(out, f)); }
     for &f in &[Flav::Base, Flav::Allow, Flav::Block, Flav::Votes, Flav::Vault, Flav::Rwa] {
         safely(&mut out, |out| scenario_persistence(out, f, 16, 4096, 6_312_000, false));           // SDK test defaults
